@@ -27,6 +27,19 @@ CLAIMED = {
             'registers all maps and the scope log on every successful path, push/popScope guarded by the same global-declarations predicate, '
             'scope logs paired with the assertion stack, single writer of the maps. Decides these clauses, not which container each printer reads.',
             'static analysis: container-protocol and pairing rules over class facts + path-sensitive MUST-CALL walk', ''),
+    'C19': ('other',
+            'Static, all-paths typestate "commit after validate" over all 22 command arms of the interpreter, interprocedural through the front-end '
+            'layer with typed exceptional edges: no error response after persistent state was mutated; MainSolver mutators validate before they '
+            'write. Decides this structural clause (a necessary condition), not that outputs are semantically equal. Four listed known findings '
+            '(names registered inside a rejected command).',
+            'static analysis: interprocedural typestate over the structured mini-AST with exception edges from a whole-program escape fixpoint', ''),
+    'C20': ('model_checking',
+            'Exhaustive product-automaton equivalence of the two scanners that decide command framing: the pipe reader loop (abstractly '
+            'interpreted from the type-checked AST for every flag valuation) and the flex lexer (rules parsed from the .ll source), over all 256 '
+            'byte values in every reachable product state. Full at this abstraction for syntactically valid scripts; execution of framed commands '
+            'is shared code and not compared.',
+            'static analysis: scanner-automaton extraction from source + exhaustive product-state enumeration (no code is run)',
+            'flex longest-match/default-rule semantics as documented; framing state checked to be declared at function scope (chunk independence)'),
 }
 
 NOT_APPLICABLE = {
